@@ -107,6 +107,10 @@ func (c *check) runE3(e e3unit, ctx *engine.Ctx) {
 			}
 		}
 	}
+	// one shard is up to MaxExecs complete executions of the scenario: the per-case CPU budget that suits a single
+	// render (60 s) is far too small for it (a shard at preemption bound 3 needs several minutes of CPU)
+	ctx.SetCaseBudget(3000)
+	defer ctx.SetCaseBudget(60)
 	ok := ctx.GuardFail(desc, feats, func() {
 		if e.shard == 0 {
 			// determinism of the harness: the default schedule twice, identical observations
